@@ -97,7 +97,7 @@ def check_clauses(d, queries, answers, mode):
     if a:
       bad = orc.unreachable_goals(n, S)
       if bad:
-        fp = "iii:unreachable-goal-accepted:" + cls + ("+srccycle" if has_source_cycle(d) else "")
+        fp = "iii:unreachable-goal-accepted:" + cls
         out.append((fp, "clause (iii): accepted combination contains a goal none of whose origins "
                         "is backward reachable from the query node",
                     {"node": n, "goals": list(S), "unreachable": bad}))
